@@ -14,11 +14,18 @@ def main():
         print(f"coq build: rc={rc} {dt:.0f}s")
         if rc != 0:
             return 1
-        binp = os.path.join(vc.HARNESS, "bin", "drv")
-        os.makedirs(os.path.dirname(binp), exist_ok=True)
-        rc, out, dt = vc.go_build(binp, "./cmd/drv")
-        print(out[-3000:])
-        print(f"harness build: rc={rc} {dt:.0f}s")
+        os.makedirs(os.path.join(vc.HARNESS, "bin"), exist_ok=True)
+        rc = 0
+        for d in sorted(os.listdir(os.path.join(vc.HARNESS, "cmd"))):
+            if d == "go2coq":
+                continue
+            cfgs = [c for c in vc.PROPS.values() if c["driver"] == d]
+            tags = cfgs[0]["tags"] if cfgs else "verif"
+            race = cfgs[0]["race"] if cfgs else False
+            r, out, dt = vc.go_build(os.path.join(vc.HARNESS, "bin", d), "./cmd/" + d, tags=tags, race=race)
+            print(out[-3000:])
+            print(f"harness build {d}: rc={r} {dt:.0f}s")
+            rc = rc or r
         bad = vc.audit_sources()
         if bad:
             print("AUDIT:", bad)
